@@ -769,6 +769,8 @@ pub fn suite(args: &Args, out: &mut Out, os: &[u32], weight: usize) {
     let full = args.thorough();
     // weight 2: the family's main observable; weight 1: lighter run
     let (n1, n2) = match (full, weight) {
+        (false, 0) => (3, 2),
+        (true, 0) => (4, 3),
         (false, 2) => (5, 3),
         (false, _) => (4, 2),
         (true, 2) => (6, 4),
@@ -782,6 +784,7 @@ pub fn suite(args: &Args, out: &mut Out, os: &[u32], weight: usize) {
     e6(out, os, full);
     surrogate_sequences(out, os);
     let n7 = match (full, weight) {
+        (false, 0) => 2000,
         (false, _) => 6000,
         (true, 2) => 200000,
         (true, _) => 60000,
